@@ -84,6 +84,9 @@ func c20Leaves() []interface{} {
 	}
 }
 
+// c20Full (thorough tier): wrap every level-1 value again, under all eight wrappers.
+var c20Full bool
+
 func c20Values() []interface{} {
 	leaves := c20Leaves()
 	out := append([]interface{}{}, leaves...)
@@ -105,7 +108,9 @@ func c20Values() []interface{} {
 	out = append(out, lvl1...)
 	// second level: wrap a selection of level-1 values again
 	for i, v := range lvl1 {
-		if i%3 == 0 {
+		if c20Full {
+			out = append(out, wrap(v)...) // thorough: every level-1 value under every wrapper
+		} else if i%3 == 0 {
 			out = append(out, wrap(v)[:5]...)
 		}
 	}
@@ -296,6 +301,7 @@ func goShape(v interface{}) string {
 }
 
 func checkC20(c *Ctx) {
+	c20Full = c.Thorough()
 	vals := c20Values()
 	opts := []struct {
 		name string
